@@ -149,6 +149,7 @@ Accept(c, k) ==
              ELSE s1
 Feed(c, it) ==
   /\ S.kind[c] \in {"tcp", "tty"} /\ S.rst[c] \in {"new", "waiting", "runnable"}
+  /\ ~\E i \in DOMAIN S.inq[c] : S.inq[c][i][1] \in {"eof", "err"}          \* a peer sends nothing after it closed / reset
   /\ S' = LET s1 == [S EXCEPT !.inq[c] = Append(@, it)] IN
           IF S.rst[c] = "waiting" THEN [s1 EXCEPT !.rst[c] = "runnable", !.ready = Append(@, <<"reader", c>>)] ELSE s1
 DeviceSend(id) ==             \* a registered driver publishes one message (id) through the router
